@@ -15,6 +15,9 @@ PROP = dict(
         # deep: targets of up to 5 segments (two placeholders under a base path)
         dict(module="MCHTTPRouter", cfg=dict(quick="MCHTTPRouter_deep_quick.cfg", thorough="MCHTTPRouter_deep_thorough.cfg"),
              timeout=dict(quick=600, thorough=1500)),
+        # pre: placeholders behind a literal prefix inside their segment (k={x}, v{x}) x values made of reserved bytes
+        dict(module="MCHTTPRouter", cfg=dict(quick="MCHTTPRouter_pre_quick.cfg", thorough="MCHTTPRouter_pre_thorough.cfg"),
+             timeout=dict(quick=600, thorough=1500)),
         dict(module="MCHTTPRouter", cfg="MCHTTPRouter_mutant_urlpath.cfg", expect_violation="PropertyHolds", timeout=300),
         dict(module="MCHTTPRouter", cfg="MCHTTPRouter_asbuilt_d1.cfg", expect_violation="PropertyHolds", timeout=300),
     ],
@@ -28,7 +31,8 @@ PROP = dict(
                "method spellings, and validates every request served by the real RoutesHandler/APIHandler (httptest and, through a "
                "real httptest.Server with the request line written verbatim) against the declarative property.",
     level_note="bounded exhaustive at model level; the real code is bound by trace validation of the executed requests only; "
-               "templates restricted to whole-segment placeholders (no composite {a}.{b} segments), literals without ':' '*' '#'; "
+               "templates: segments are a literal, a whole-segment placeholder or literal-prefix + placeholder (no composite {a}.{b} "
+               "segments), literals without ':' '*' '#'; "
                "net/http's URL.EscapedPath() is trusted and its model is checked on every event",
     design_ref="DESIGN.md 4.1",
     driver="c01",
@@ -42,7 +46,9 @@ PROP = dict(
          "yielding debug logger), one event per request. Non-trivial: at least one "
          "request ran a handler with parameters and at least one got 404/405; distinct by hash of the case.",
     assumptions=COMMON_ASSUME + [
-        "templates are '/'-separated segments each of which is a literal or one whole-segment placeholder {name}; literal segments "
+        "templates are '/'-separated segments each of which is a literal, one whole-segment placeholder {name}, or a literal prefix "
+        "followed by one placeholder to the end of the segment (key={value}, v{ver}; the latter only next to a placeholder that opens its "
+        "segment or follows '='); where such a prefixed placeholder would take the empty text the outcome is left open; literal segments "
         "contain none of ':' '*' '#' '{' '}' and are not dot segments; placeholder names are unique within a template",
         "no two operations of one method have templates that differ only in placeholder names (OpenAPI forbids equivalent templates)",
         "base paths start with '/' (or are empty) and contain no empty or dot segments",
